@@ -57,16 +57,19 @@ def load_findings():
     return json.load(open(p))["findings"]
 
 
-def match_finding(findings, prop, function, clause, cfg):
+def match_finding(findings, prop, function, clause, cfg, detail=""):
     base = clause.split("[")[0]
     for f in findings:
         if f.get("status", "known") != "known":
             continue
         if prop not in f["properties"]:
             continue
-        if f["function"] != function:
+        ff = f["function"]
+        if ff != function and not (ff.endswith("*") and function.startswith(ff[:-1])):
             continue
         if f["clause"] != clause and f["clause"] != base:
+            continue
+        if "detail_contains" in f and f["detail_contains"] not in str(detail):
             continue
         want = f.get("cfg", {})
         if all(cfg.get(k) == v or (isinstance(v, list) and cfg.get(k) in v) for k, v in want.items()):
@@ -160,7 +163,7 @@ def main(argv=None):
         if ob["verdict"] == "proved":
             proved += 1
             continue
-        f = match_finding(findings, prop, fn, ob["name"], cfg)
+        f = match_finding(findings, prop, fn, ob["name"], cfg, ob.get("detail", ""))
         if f is not None:
             # a listed finding: the clause is known not to hold here (refuted, or not provable)
             known_hits.setdefault(f["id"], [f, 0])[1] += 1
